@@ -665,6 +665,13 @@ impl<T: FftNum> FftPlannerScalar<T> {
     }
 }
 
+#[cfg(feature = "verif-hooks")]
+pub(crate) fn verif_scalar_recipe(len: usize) -> (usize, String) {
+    let mut planner = FftPlannerScalar::<f64>::new();
+    let recipe = planner.design_fft_for_len(len);
+    (recipe.len(), format!("{:?}", recipe))
+}
+
 #[cfg(test)]
 mod unit_tests {
     use super::*;
